@@ -52,9 +52,6 @@ def k50(args):
             res.append([fr(r), dump()])
         elif t == 21:
             q = qs[op[1]]
-            if qobjs[op[1]][1] >= nb:
-                res.append([-995])
-                continue
             r = q.downward()
             res.append([fr(r), dump()])
         elif t == 1:
